@@ -24,6 +24,7 @@ impl<'a> StateMachine<'a> {
     // verified against a stronger contract in U14
     //@ stub src/delta.rs StateMachine::ingest_line
     //@| ensures final(self).state == old(self).state && final(self).painter == old(self).painter && final(self).config == old(self).config,
+    //@|         final(self).source == old(self).source && final(self).minus_line_counter == old(self).minus_line_counter,
     //@ fn src/handlers/merge_conflict.rs StateMachine::handle_unterminated_merge_conflict optional=1
     //@| requires old(self).state matches State::MergeConflict(mp, _) ==> mp_known(mp),
     //@| ensures sm_frame(final(self), old(self)),
@@ -50,12 +51,17 @@ impl<'a> StateMachine<'a> {
     //@until <<<// Every method named handle_* must return std::io::Result<bool>.>>>
     //@tail Ok(())
     //@| requires sm_wf(old(self)),
-    //@| ensures r.is_ok() ==> (final(self).state is HunkHeader ==> is_prefix("-Subproject commit "@, final(self).line@)),  // @C02,C14:a.hunk.header.is.held.back.only.while.the.next.line.may.be.a.submodule.commit
+    //@| ensures old(self).source == Source::Unknown && final(self).source == Source::DiffUnified ==> counter_armed(&final(self).minus_line_counter),  // @C01,C10:in.a.plain.unified.diff.the.disambiguation.of.three.dash.lines.is.switched.on.whatever.its.first.line.is
+    //@|         r.is_ok() ==> (final(self).state is HunkHeader ==> is_prefix("-Subproject commit "@, final(self).line@)),  // @C02,C14:a.hunk.header.is.held.back.only.while.the.next.line.may.be.a.submodule.commit
     //@|         r.is_ok() ==> (final(self).state is SubmoduleShort ==> is_prefix("+Subproject commit "@, final(self).line@)),  // @C01:a.submodule.commit.is.held.back.only.while.the.next.line.is.its.partner
 }
 //@ stub src/delta.rs detect_source spec=delta.detect_source
+/// the counter that tells a removed line `-- x` from a `--- file` header is switched on (U30 proves of the real
+/// prepare_to_count: `needed() && !counting()`, and that counting lines never switches it off)
+pub uninterp spec fn counter_armed(c: &AmbiguousDiffMinusCounter) -> bool;
 impl AmbiguousDiffMinusCounter {
     //@ stub src/handlers/hunk_header.rs AmbiguousDiffMinusCounter::prepare_to_count
+    //@| ensures counter_armed(&r),
 }
 
 // ---------------------------------------------------------------- config.rs: the buffer limit is the number the user gave
